@@ -32,7 +32,18 @@ func runUDPServer(st Stim) Trace {
 	tr := Trace{Mode: "udpsrv", T: st.T, P: st.P, KeepAlive: st.KeepAlive, MaxRetries: st.MaxRetries, Events: st.Events, Obs: []Obs{}}
 	vnow.Store(0)
 	var closes atomic.Int64
-	onInactive := func(cc *udpclient.Conn) { closes.Add(1); _ = cc.Close() }
+	var ccMu sync.Mutex
+	var uconns []*udpclient.Conn
+	byAddr := map[string]*udpclient.Conn{}
+	onInactive := func(cc *udpclient.Conn) {
+		ccMu.Lock()
+		isPeer := len(uconns) > 0 && uconns[0] == cc
+		ccMu.Unlock()
+		if isPeer {
+			closes.Add(1)
+		}
+		_ = cc.Close()
+	}
 	var tickMu sync.Mutex
 	var ticks []func(time.Time) bool
 	runner := func(f func(now time.Time) bool) {
@@ -40,12 +51,15 @@ func runUDPServer(st Stim) Trace {
 		ticks = append(ticks, f)
 		tickMu.Unlock()
 	}
-	var ccMu sync.Mutex
-	var uconns []*udpclient.Conn
 	opts := []udpserver.Option{
 		options.WithPeriodicRunner(runner),
 		options.WithErrors(func(error) {}),
-		options.WithOnNewConn(func(cc *udpclient.Conn) { ccMu.Lock(); uconns = append(uconns, cc); ccMu.Unlock() }),
+		options.WithOnNewConn(func(cc *udpclient.Conn) {
+			ccMu.Lock()
+			uconns = append(uconns, cc)
+			byAddr[cc.RemoteAddr().String()] = cc
+			ccMu.Unlock()
+		}),
 		options.WithHandlerFunc(func(w *responsewriter.ResponseWriter[*udpclient.Conn], r *pool.Message) {}),
 	}
 	if st.KeepAlive {
@@ -132,6 +146,37 @@ func runUDPServer(st Stim) Trace {
 	if cc == nil {
 		rec.Die("c18 udpsrv: the server created no connection for the peer")
 	}
+	// Crowd: other peers of the same server come and go - before every tick three of them have talked to the server and their
+	// connections have then been closed (by the application), so the tick finds closed connections waiting to be dismantled
+	// next to the peer under test: what it does to that peer must not depend on them
+	var crowd []*net.UDPConn
+	if st.Crowd {
+		for k := 0; k < 3; k++ {
+			c, err := net.DialUDP("udp4", nil, saddr)
+			if err != nil {
+				rec.Die("dial: %v", err)
+			}
+			defer c.Close()
+			crowd = append(crowd, c)
+		}
+	}
+	crowdComeAndGo := func() {
+		for k, c := range crowd {
+			_, _ = c.Write(memnet.Build(message.NonConfirmable, int(codes.GET), int32(9000+k), []byte{7, byte(k)}, message.Options{{ID: message.URIPath, Value: []byte("x")}}, nil))
+			a := c.LocalAddr().String()
+			var sc *udpclient.Conn
+			hooks.WaitFor(300*time.Millisecond, func() bool {
+				ccMu.Lock()
+				defer ccMu.Unlock()
+				sc = byAddr[a]
+				return sc != nil && sc.Context().Err() == nil
+			})
+			if sc != nil {
+				hooks.Quiesce(sc, 200*time.Millisecond)
+				_ = sc.Close()
+			}
+		}
+	}
 	wasClosed := false
 	for _, e := range st.Events {
 		if wasClosed {
@@ -139,6 +184,9 @@ func runUDPServer(st Stim) Trace {
 			continue
 		}
 		vnow.Store(int64(e.T))
+		if e.E == "tick" {
+			crowdComeAndGo()
+		}
 		switch e.E {
 		case "recv":
 			mid++
